@@ -313,8 +313,9 @@ fn check_bank_output(
 
     if let Some(bank_size) = bankdef.size
     {
-        // FIXME: Addition can overflow
-        if ctx.bank_data.cur_position + size > bank_size
+        if ctx.bank_data.cur_position
+            .checked_add(size)
+            .map_or(true, |end| end > bank_size)
         {
             report.push_parent(
                 format!(
